@@ -712,5 +712,15 @@ def main(jobs_n: int, only: Optional[str]) -> int:
     s = summarise(res)
     for l in s["lines"]:
         print(l)
+    # on the unchanged tree every rule must DECIDE: an auxiliary rule that is undecided does not change an exit status and
+    # would otherwise degrade unnoticed (e.g. after a normalisation of the loader changed the spelling a rule expects)
+    from .ctx import Ctx
+    from .props import PROPS
+    from .report import UNDECIDED
+    from .engine import run_rules_only
+
+    und = run_rules_only(Ctx(REPO), sorted({r_ for p_ in PROPS.values() for r_ in p_["core"] + p_["aux"]}))
+    for name, reason in und:
+        print(f"  UNDECIDED-ON-CLEAN-TREE: rule {name}: {reason}")
     print(f"selftest: {s['variants_run']} variant analyses in {time.time() - t0:.1f}s")
-    return 0 if not s["sensitivity_gaps"] and not s["benign_alarms"] else 3
+    return 0 if not s["sensitivity_gaps"] and not s["benign_alarms"] and not und else 3
